@@ -1250,6 +1250,131 @@ func decidedOne(out *hx.Out, seed, c uint64, size int) {
 	}
 }
 
+// ---- exhaustive short histories --------------------------------------------------------------------------
+//
+// Every sequence of L symbols from a fixed alphabet (pre-signed messages of operators 1-3 incl. an
+// equivocating leader, justified and unjustified round-2 proposals, prepared and unprepared round
+// changes, timeout, compaction) is fed to a fresh instance of operator 4 (height 0, leader of round 1
+// = operator 1) next to the reference instance and replayed on the model.
+
+type symbol struct {
+	name string
+	msg  *specqbft.SignedMessage // nil: timeout / compact
+}
+
+func exhAlphabet(w *world) []symbol {
+	s := &sim{w: w, r: hx.NewRand(1, "exh", 0), byz: map[spectypes.OperatorID]bool{}, height: 0, stats: map[string]int{}}
+	A, B := valueBytes(1), valueBytes(2)
+	rA, rB := sha256.Sum256(A), sha256.Sum256(B)
+	var syms []symbol
+	add := func(name string, m *specqbft.SignedMessage) { syms = append(syms, symbol{name, m}) }
+	add("timeout", nil)
+	add("compact", nil)
+	add("prop1A", s.sign(1, s.base(specqbft.ProposalMsgType, 1, rA), A))
+	add("prop1B", s.sign(1, s.base(specqbft.ProposalMsgType, 1, rB), B))
+	add("prop1A-notleader", s.sign(2, s.base(specqbft.ProposalMsgType, 1, rA), A))
+	add("prop2A-unjustified", s.sign(2, s.base(specqbft.ProposalMsgType, 2, rA), A))
+	var rcs2 []*specqbft.SignedMessage
+	for _, id := range []spectypes.OperatorID{1, 2, 3} {
+		rc := s.sign(id, s.base(specqbft.RoundChangeMsgType, 2, [32]byte{}), nil)
+		rcs2 = append(rcs2, rc)
+		add(fmt.Sprintf("rc2-%d", id), rc)
+	}
+	p2 := s.base(specqbft.ProposalMsgType, 2, rA)
+	p2.RoundChangeJustification, _ = specqbft.MarshalJustifications(rcs2)
+	add("prop2A-justified", s.sign(2, p2, A))
+	var preps1A []*specqbft.SignedMessage
+	for _, id := range []spectypes.OperatorID{1, 2, 3} {
+		for _, rd := range []uint64{1, 2} {
+			for vi, root := range [][32]byte{rA, rB} {
+				pm := s.sign(id, s.base(specqbft.PrepareMsgType, rd, root), nil)
+				add(fmt.Sprintf("prep%d%c-%d", rd, 'A'+vi, id), pm)
+				if rd == 1 && vi == 0 {
+					preps1A = append(preps1A, pm)
+				}
+				add(fmt.Sprintf("com%d%c-%d", rd, 'A'+vi, id), s.sign(id, s.base(specqbft.CommitMsgType, rd, root), nil))
+			}
+		}
+	}
+	for _, id := range []spectypes.OperatorID{1, 2} {
+		m := s.base(specqbft.RoundChangeMsgType, 2, rA)
+		m.DataRound = 1
+		m.RoundChangeJustification, _ = specqbft.MarshalJustifications(preps1A)
+		add(fmt.Sprintf("rc2-prepared1A-%d", id), s.sign(id, m, A))
+		add(fmt.Sprintf("rc3-%d", id), s.sign(id, s.base(specqbft.RoundChangeMsgType, 3, [32]byte{}), nil))
+	}
+	// a proposal for round 2 that re-proposes the prepared value with its prepare quorum
+	var rcsP []*specqbft.SignedMessage
+	for _, sy := range syms {
+		if strings.HasPrefix(sy.name, "rc2-prepared1A-") {
+			rcsP = append(rcsP, sy.msg)
+		}
+	}
+	rcsP = append(rcsP, rcs2[2])
+	p2p := s.base(specqbft.ProposalMsgType, 2, rA)
+	p2p.RoundChangeJustification, _ = specqbft.MarshalJustifications(rcsP)
+	p2p.PrepareJustification, _ = specqbft.MarshalJustifications(preps1A)
+	add("prop2A-reproposal", s.sign(2, p2p, A))
+	// a decided-shaped aggregate (the instance treats it as a multi-signer commit)
+	add("decided1A", testingutils.MultiSignQBFTMsg([]*bls.SecretKey{w.ks.Shares[1], w.ks.Shares[2], w.ks.Shares[3]},
+		[]spectypes.OperatorID{1, 2, 3}, s.base(specqbft.CommitMsgType, 1, rA)))
+	return syms
+}
+
+func exhCase(out *hx.Out, w *world, syms []symbol, seq []int) {
+	names := make([]string, len(seq))
+	for i, k := range seq {
+		names[i] = strconv.Itoa(k)
+	}
+	out.Case("exh size=4 seq=%s", strings.Join(names, ","))
+	nd := w.newNode(4, 0, "inst")
+	nd.start(3)
+	for _, k := range seq {
+		sy := syms[k]
+		switch {
+		case sy.msg != nil:
+			nd.deliver(sy.msg)
+		case sy.name == "timeout":
+			nd.timeout()
+		default:
+			nd.compact()
+		}
+	}
+	for _, l := range nd.lines {
+		writeLine(out, l)
+	}
+	out.End()
+}
+
+func exhaustiveMode(out *hx.Out, length, shard, of int) {
+	w := newWorld(4)
+	syms := exhAlphabet(w)
+	out.Note("alphabet of %d symbols, length %d, shard %d of %d", len(syms), length, shard, of)
+	seq := make([]int, length)
+	idx := 0
+	var rec func(d int)
+	rec = func(d int) {
+		if d == length {
+			if idx%of == shard {
+				exhCase(out, w, syms, seq)
+			}
+			idx++
+			return
+		}
+		for k := range syms {
+			seq[d] = k
+			rec(d + 1)
+		}
+	}
+	for l := 1; l <= length; l++ {
+		length0 := length
+		length = l
+		seq = make([]int, l)
+		rec(0)
+		length = length0
+	}
+}
+
 func min64(a, b uint64) uint64 {
 	if a < b {
 		return a
@@ -1326,6 +1451,17 @@ func replay(out *hx.Out, path string) {
 			}
 			continue
 		}
+		if strings.HasPrefix(l, "CASE") && strings.Contains(l, " exh size=4 seq=") {
+			i := strings.Index(l, "seq=")
+			var seq []int
+			for _, t := range strings.Split(strings.Fields(l[i+4:])[0], ",") {
+				k, _ := strconv.Atoi(t)
+				seq = append(seq, k)
+			}
+			w := newWorld(4)
+			exhCase(out, w, exhAlphabet(w), seq)
+			continue
+		}
 		if strings.Contains(l, "scenario=f6") {
 			if !done["f6"] {
 				done["f6"] = true
@@ -1396,6 +1532,9 @@ func main() {
 	nbyz := fs.Int("byz", -1, "number of Byzantine operators (-1: random 0..f)")
 	mut := fs.Bool("mut", false, "forge with any operator's key (single-instance conformance)")
 	steps := fs.Int("steps", 0, "scheduler steps per run (0: random 40..200)")
+	exhLen := fs.Int("len", 2, "exh: maximal history length")
+	shard := fs.Int("shard", 0, "exh: this shard")
+	shards := fs.Int("of", 1, "exh: number of shards")
 	fs.BoolVar(&recoverMode, "recover", false, "after the adversarial prefix run the timely continuation (C07 exploration)")
 	_ = fs.Parse(os.Args[2:])
 	out := hx.NewOut()
@@ -1407,6 +1546,8 @@ func main() {
 		scenarioF6(out)
 	case "decided":
 		decidedMode(out, *seed, *n, *size)
+	case "exh":
+		exhaustiveMode(out, *exhLen, *shard, *shards)
 	case "replay":
 		replay(out, fs.Arg(0))
 	default:
